@@ -40,6 +40,7 @@
 #include <memory>
 #include <mutex>
 #include <sstream>
+#include <atomic>
 #include <thread>
 
 #include <dirent.h>
@@ -179,9 +180,9 @@ static void runOnSmallStack(std::function<void()> f)
   pthread_attr_destroy(&at);
 }
 
-static std::string writeAndDecode(const std::string &fmt, long sx, long sy, uint32_t *buf)
+static std::string writeAndDecode(const std::string &fmt, long sx, long sy, uint32_t *buf, const std::string &suffix = "")
 {
-  std::string fn = g_dir + "/img";
+  std::string fn = g_dir + "/img" + suffix;
   remove(fn.c_str());
   // (the size of the padded vec3fa is deliberately not asserted here: the PFM writer for it takes 4 words per pixel,
   // which is what the harness supplies; a layout that disagrees with the writer shows up in the decoded pixels)
@@ -248,6 +249,53 @@ static std::string opImagePattern(const std::vector<std::string> &w)
   char hb[32];
   snprintf(hb, sizeof hb, "%016llx", h);
   return std::string("digest=") + hb + " len=" + std::to_string(d.size()) + " head=" + d.substr(0, 24);
+}
+
+// imgmt <fmt> <w> <h> <seed> <T> <R>: T threads write T different pattern images (seed + t) of the same format to T
+// different files at the same time, R rounds; observed: the digests of the T decoded files (each must be what a
+// single-threaded write of that image gives, in every round)
+static std::string patternDigest(const std::string &fmt, long sx, long sy, unsigned long long seed, const std::string &suffix)
+{
+  int wordsPerPixel = (fmt == "pf3") ? 3 : (fmt == "pf3a" || fmt == "pf4") ? 4 : 1;
+  size_t n = (size_t)sx * sy * wordsPerPixel;
+  uint32_t *buf = (uint32_t *)malloc(n * 4);
+  for (size_t i = 0; i < n; ++i)
+    buf[i] = (uint32_t)(((seed + i) * 2654435761ull) & 0xffffffffull);
+  std::string d = writeAndDecode(fmt, sx, sy, buf, suffix);
+  unsigned long long h = 14695981039346656037ull;
+  for (unsigned char ch : d) { h ^= ch; h *= 1099511628211ull; }
+  char hb[32];
+  snprintf(hb, sizeof hb, "%016llx", h);
+  return hb;
+}
+static std::string opImageThreads(const std::vector<std::string> &w)
+{
+  if (w.size() != 7)
+    return "bad-op";
+  const std::string &fmt = w[1];
+  long sx = vh::to_ll(w[2]), sy = vh::to_ll(w[3]);
+  unsigned long long seed = vh::to_ull(w[4]);
+  int T = (int)vh::to_ll(w[5]), R = (int)vh::to_ll(w[6]);
+  if (sx < 1 || sy < 1 || T < 1 || T > 8 || R < 1 || R > 64 || (size_t)sx * sy > (1u << 20))
+    return "bad-op";
+  std::vector<std::string> first(T), bad(T);
+  std::atomic<int> ready{0};
+  std::vector<std::thread> th;
+  for (int t = 0; t < T; ++t)
+    th.emplace_back([&, t] {
+      for (int r = 0; r < R; ++r) {
+        ready++;
+        while (ready.load() < T * (r + 1)) std::this_thread::yield();   // all threads start each round together
+        std::string d = patternDigest(fmt, sx, sy, seed + (unsigned long long)t, "_t" + std::to_string(t));
+        if (r == 0) first[t] = d;
+        else if (d != first[t] && bad[t].empty()) bad[t] = d;
+      }
+    });
+  for (auto &x : th) x.join();
+  std::string out;
+  for (int t = 0; t < T; ++t)
+    out += (t ? "|" : "") + (bad[t].empty() ? first[t] : first[t] + "/" + bad[t]);
+  return out;
 }
 
 // ---------------------------------------------------------------------------------------------
@@ -889,6 +937,8 @@ int main(int argc, char **argv)
   auto step = [](const std::vector<std::string> &w) -> std::string {
     if (w[0] == "img")
       return opImage(w);
+    if (w[0] == "imgmt")
+      return opImageThreads(w);
     if (w[0] == "imgpat")
       return opImagePattern(w);
     if (w[0] == "thr" && w.size() >= 2) {
